@@ -232,3 +232,101 @@ def resolve_role(name: str, site: CountSite):
         if v == lv:
             return src, lv, it
     return src, lv, None
+
+
+# ---------------------------------------------------------------------------
+# loop-carried work arrays
+
+def _const_like(x: X, written: set) -> bool:
+    """Value does not read any of the work arrays."""
+    return not (names_in(x) & written)
+
+
+def full_init_arrays(st: X, written: set):
+    """Arrays that statement `st` fully (re-)initialises, with the range
+    expressions used: {array: [range args]} or {}.
+
+    Recognised forms:
+      A.fill(c)
+      for l in range(n): A[l] = B[l] = v           (v does not read work arrays)
+      for j in range(n): for k in range(j+1): A[j,k] = A[k,j] = v   (+ 1-d stores)
+      for j in range(n): for k in range(m): A[j,k] = v
+    """
+    out = {}
+    if st.k == "expr" and st.a[0].k == "call" and st.a[0].a[0].k == "attr" and \
+            st.a[0].a[0].a[1] == "fill" and st.a[0].a[0].a[0].k == "name":
+        if all(_const_like(a, written) for a in st.a[0].a[1]):
+            out[st.a[0].a[0].a[0].a[0]] = ["fill"]
+        return out
+    if not (st.k == "for" and st.a[0].k == "name" and st.a[1].k == "call"
+            and pp(st.a[1].a[0]) == "range" and len(st.a[1].a[1]) == 1):
+        return out
+    j = st.a[0].a[0]
+    n = pp(st.a[1].a[1][0])
+    for s in st.a[2]:
+        if s.k == "assign" and _const_like(s.a[1], written):
+            for t in s.a[0]:
+                if t.k == "index" and t.a[0].k == "name" and len(t.a[1]) == 1 and \
+                        pp(t.a[1][0]) == j:
+                    out.setdefault(t.a[0].a[0], []).append(n)
+        elif s.k == "for" and s.a[0].k == "name" and s.a[1].k == "call" and \
+                pp(s.a[1].a[0]) == "range" and len(s.a[1].a[1]) == 1:
+            k = s.a[0].a[0]
+            inner = pp(s.a[1].a[1][0]).replace(" ", "")
+            tri = inner in (f"({j}+1)", f"{j}+1")
+            for s2 in s.a[2]:
+                if s2.k != "assign" or not _const_like(s2.a[1], written):
+                    return {}
+                idx = [tuple(pp(i) for i in t.a[1]) for t in s2.a[0]
+                       if t.k == "index" and t.a[0].k == "name"]
+                arrs = {t.a[0].a[0] for t in s2.a[0] if t.k == "index"
+                        and t.a[0].k == "name"}
+                if len(arrs) != 1:
+                    return {}
+                a = arrs.pop()
+                if tri and set(idx) == {(j, k), (k, j)}:
+                    out.setdefault(a, []).append(n)
+                elif not tri and (j, k) in idx:
+                    out.setdefault(a, []).append(f"{n}x{inner}")
+                else:
+                    return {}
+        else:
+            return {}
+    return out
+
+
+def stale_work_arrays(body: list, arrays: set, accumulator=None):
+    """[(array, stmt)] for work arrays (written somewhere in `body`) that are
+    used in an iteration before being fully re-initialised in it."""
+    written = set()
+    for n in walk(body):
+        if isinstance(n, X) and n.k in ("assign", "aug"):
+            tg = n.a[0] if n.k == "assign" else [n.a[1]]
+            for t in tg:
+                if t.k == "index" and t.a[0].k == "name":
+                    written.add(t.a[0].a[0])
+                elif t.k == "name" and t.a[0] in arrays:
+                    written.add(t.a[0])
+        if isinstance(n, X) and n.k == "call" and n.a[0].k == "attr" and \
+                n.a[0].a[1] == "fill" and n.a[0].a[0].k == "name":
+            written.add(n.a[0].a[0].a[0])
+    written &= arrays
+    inited = set()
+    problems = []
+    for st in body:
+        fi = full_init_arrays(st, written)
+        if fi:
+            # the initialiser itself may read already initialised arrays only
+            used = (names_in(st) & written) - set(fi)
+            for a in sorted(used - inited):
+                problems.append((a, st))
+            inited |= set(fi)
+            continue
+        used = names_in(st) & written
+        for a in sorted(used - inited):
+            if a == accumulator and st.k == "aug" and st.a[0] == "+" and \
+                    pp(st.a[1]) == a and a not in names_in(st.a[2]):
+                continue
+            problems.append((a, st))
+            inited.add(a)
+    return written, problems
